@@ -434,6 +434,59 @@ pub fn step_dddmp(s: &mut Mach, ins: &Instr, model: &mut Model, ctx: &mut RunCtx
         }
     }
 
+    // ---- C14: import into fresh managers of every capacity up to what the file needs ----
+    let identity = model.order.iter().enumerate().all(|(i, v)| i as u32 == *v);
+    if !faulty && !ctx.io_corrupt && !ctx.failed() && s.cfg.oom_ok && backend_has_capacity() && (KIND != Kind::Zbdd || identity) {
+        let used = s.mref.with_manager_shared(|m| m.num_inner_nodes()) as u32;
+        let lo = if KIND == Kind::Zbdd { n + 4 } else { 0 };
+        let hi = (lo + used + 2).min(99);
+        for cap in lo..=hi {
+            let mut cfg2 = s.cfg.clone();
+            cfg2.vars = n;
+            cfg2.capacity = cap;
+            cfg2.term_capacity = 64;
+            let mut other = Mach::new(&cfg2);
+            if !identity {
+                other.mref.with_manager_exclusive(|m| oxidd_reorder::set_var_order_seq(m, &model.order));
+            }
+            let initial = other.mref.with_manager_shared(|m| m.num_inner_nodes());
+            let mut f2 = 0;
+            ctx.stats.bump("probe.dddmp_import_capacity_point");
+            match import_bytes(&other, &file, RPlan::Plain, &mut f2) {
+                Err(e) => {
+                    if !e.contains("out of memory") {
+                        ctx.violate(&["C14", "C15"], "import-tight-error", format!("{:?}: import into a fresh manager of capacity {} failed with '{}', which is no out-of-memory report", ins, cap, e));
+                        break;
+                    }
+                    ctx.stats.bump("fault.oom_result");
+                    ctx.stats.bump("probe.dddmp_import_oom");
+                }
+                Ok((handles, _)) => {
+                    for (i, h) in handles.into_iter().enumerate() {
+                        other.regs[i] = Some(h);
+                    }
+                    let mut snap = other.snapshot();
+                    for (i, dexp) in root_dens.iter().enumerate() {
+                        match snap.regs[i].map(|e| snap.den(e)) {
+                            Some(Ok(dg)) if &dg == dexp => {}
+                            Some(Ok(dg)) => ctx.violate(&["C14", "C15"], "import-tight-denotation", format!("{:?}: capacity {}: root {} denotes {}, original {}", ins, cap, i, dg.short(), dexp.short())),
+                            o => ctx.violate(&["C14", "C15"], "import-tight-walk", format!("{:?}: capacity {}: root {}: {:?}", ins, cap, i, o.map(|x| x.map(|d| d.short())))),
+                        }
+                    }
+                    for r in other.regs.iter_mut() {
+                        *r = None;
+                    }
+                }
+            }
+            other.mref.with_manager_shared(|m| m.gc());
+            let left = other.mref.with_manager_shared(|m| m.num_inner_nodes());
+            if left != initial {
+                ctx.violate(&["C14", "C05"], "import-tight-leak", format!("{:?}: after an import into a fresh manager of capacity {} and dropping everything, gc leaves {} inner nodes, {} initially", ins, cap, left, initial));
+                break;
+            }
+        }
+    }
+
     // ---- stored-byte faults: every truncation point, seeded mutations ------------------
     if ctx.io_corrupt && !ctx.failed() {
         let before = s.mref.with_manager_shared(|m| m.num_inner_nodes());
